@@ -132,6 +132,13 @@ def sources(seed, tier):
                 "Quat": [("q+", q), ("q-", -q)], "Mrp": [("r", ref.mrp_of(v))]}
         # the quaternion/MRP of v only reproduce R to ~1e-15; reference rotation for those sources is their own
         out.append((tag, R, reps))
+    # rotations by exactly pi written literally: quaternion (0, n) with scalar part exactly 0.0 (both signs) and the exactly symmetric
+    # matrix 2 n n^T - I (axis-angle constructors give cos(pi/2) = 6e-17 instead)
+    for n in (np.array([1.0, 0, 0]), np.array([0, 1.0, 0]), np.array([0, 0, 1.0]), np.array([0.6, 0.8, 0.0]), np.array([0.0, -0.6, 0.8]), np.array([2.0, -1.0, 2.0]) / 3.0):
+        R = 2.0 * np.outer(n, n) - np.eye(3)
+        q = np.concatenate([[0.0], n])
+        out.append(("literal_half_turn(%s)" % ",".join("%g" % c for c in n), R,
+                    {"Quat": [("q0=0", q), ("q0=-0", -q)], "Dcm": [("R_sym", R.reshape(-1, order="F").copy())], "Mrp": [("r_unit", n.copy())], "Euler": []}))
     # the exact element (-1,0,0,0), which the library itself produces as the square of a 180 degree flip
     out.append(("q=(-1,0,0,0)", np.eye(3), {"Quat": [("q-exact-minus-one", np.array([-1.0, 0, 0, 0]))], "Mrp": [], "Dcm": [], "Euler": []}))
     return out
@@ -229,8 +236,60 @@ def explore(case):
                 if bad:
                     res.fail(site="SO3Mrp.shadow_if_necessary", clause="shadow_preserves_rotation_and_norm_le_1", cls=rtag,
                              detail=dict(r=p0, result=q), sub="convert", case=case)
+    numeric_path(res, srcs[:: max(1, len(srcs) // 12)], case)
     res.samples.append(dict(n_sources=len(srcs), n_words=len(words), example=srcs[min(5, len(srcs) - 1)][0]))
     return res
+
+
+def numeric_path(res, srcs, case):
+    """conversions called directly on elements built from numeric values (no casadi.Function), element reuse, argument mutation and
+    `param` reassignment (see mc/numapi.py for why)"""
+    from .. import numapi
+    for tag, R, reps in srcs:
+        for frm in KINDS:
+            for rtag, p0 in reps[frm]:
+                for to in KINDS:
+                    if to == frm or conv(to, frm) is None:
+                        continue
+                    res.count("evaluations")
+                    res.count("numeric_api_calls")
+                    Gt, Gf = lib.SO3S[to], lib.SO3S[frm]
+                    want = call(conv(to, frm), p0)
+                    X = Gf.elem(ca.DM(p0))
+                    try:
+                        r1 = numapi.ev(getattr(Gt, "from_" + frm)(X).param).reshape(-1)
+                        r2 = numapi.ev(getattr(Gt, "from_" + frm)(X).param).reshape(-1)
+                    except Exception as ex:
+                        res.fail(site="SO3%s.from_%s" % (to, frm), clause="numeric_api:call_raises", cls=type(ex).__name__, detail=dict(raw=p0, error=str(ex)[:200]), sub="convert", case=case)
+                        continue
+                    info = dict(source=tag, rep=rtag, raw=p0)
+
+                    def same_meaning(a, b):
+                        # the two paths may differ in the sign of a zero (atan2(+-0, -x) = +-pi): compare what the parameters mean
+                        if numapi._same(a, b, 1e-11)[0]:
+                            return True
+                        if not (np.all(np.isfinite(a)) and np.all(np.isfinite(b))):
+                            return False
+                        return ref.rot_dist(gutil.ref_R_of_slot(to, a), gutil.ref_R_of_slot(to, b)) <= 1e-9
+                    if not same_meaning(r1, want):
+                        res.fail(site="SO3%s.from_%s" % (to, frm), clause="numeric_api:numeric_equals_symbolic_path", cls=rtag, detail=dict(info, numeric=r1, symbolic=want), sub="convert", case=case)
+                        continue
+                    if not numapi._same(r2, r1, 0.0)[0]:
+                        res.fail(site="SO3%s.from_%s" % (to, frm), clause="numeric_api:same_result_on_reuse", cls=rtag, detail=dict(info, first=r1, second=r2), sub="convert", case=case)
+                    if not numapi._same(numapi.ev(X.param).reshape(-1), p0, 0.0)[0]:
+                        res.fail(site="SO3%s.from_%s" % (to, frm), clause="numeric_api:arguments_not_mutated", cls=rtag, detail=dict(info, after=numapi.ev(X.param).reshape(-1)), sub="convert", case=case)
+                    # reassign the parameters of the same element object: the next conversion must see the new value
+                    others = [q for t2, q in reps[frm] if q is not p0] + [p for (_, _, rr) in srcs for (_, p) in rr[frm]][:3]
+                    for p2 in others[:2]:
+                        if np.array_equal(p2, p0):
+                            continue
+                        X.param = ca.SX(ca.DM(p2))
+                        r4 = numapi.ev(getattr(Gt, "from_" + frm)(X).param).reshape(-1)
+                        want4 = call(conv(to, frm), p2)
+                        if not same_meaning(r4, want4):
+                            res.fail(site="SO3%s.from_%s" % (to, frm), clause="numeric_api:param_reassignment_takes_effect", cls=rtag,
+                                     detail=dict(first=p0, then=p2, got=r4, want=want4), sub="convert", case=case)
+                        break
 
 
 def _judge(res, site, kind, p, Rsrc, band, rtag, info, case, word_len=1):
